@@ -34,12 +34,15 @@ SHAPES = {
     "star7": ([(0, i) for i in range(1, 7)], 7, []),
     "comb9": ([(0, 1), (1, 2), (2, 3), (3, 4), (1, 5), (2, 6), (3, 7), (4, 8)], 9, []),
     "lin9mid": ([(i, i + 1) for i in range(8)], 9, [3, 4]),
+    # two separate supplied residues: growth starts at the first one, the second is a step that is skipped in the
+    # middle of the growth order (rewind windows span it)
+    "lin9two": ([(i, i + 1) for i in range(8)], 9, [2, 5]),
     "ring6": ([(i, (i + 1) % 6) for i in range(6)], 6, []),
     # growth starts from a residue in the middle (-start): the placed residues are not a prefix of the node order
     "lin7start3": ([(i, i + 1) for i in range(6)], 7, []),
 }
 START = {"lin7start3": 3}
-QUICK = ["lin7", "br7", "lin8sup", "lin9mid", "lin7start3"]
+QUICK = ["lin7", "br7", "lin8sup", "lin9two", "lin7start3"]
 TOP = """[ defaults ]
 1 2 no 1.0 1.0
 [ atomtypes ]
